@@ -80,6 +80,11 @@ def shard(ctx):
     n = 45 if ctx.quick else 3000
     for t in range(n):
         M, D, P, rtext = make_case(rng)
+        if rng.random() < 0.3:
+            # a parameter file that is an empty map (an intentionally empty overrides file), at any position: it contributes nothing and loses nothing
+            P = list(P)
+            P.insert(rng.randrange(len(P) + 1), {})
+            ctx.res.counts["runs_with_empty_map_parameter_file"] += 1
         overlap = rng.random() < 0.25
         which = None
         Pm = [dict(p) for p in P]
@@ -113,7 +118,7 @@ def shard(ctx):
             as_json = rng.random() < 0.5
             rel = {"flat": "p%d.json" % i, "same-basename": "env%d/params.%s" % (i, "json" if as_json else "yaml"), "directory": "pdir/e%d/params.json" % i}[layout]
             ipaths.append(rel)
-            content_ = json.dumps(p) if as_json else "".join("%s: %s\n" % (k, json.dumps(v)) for k, v in p.items())
+            content_ = json.dumps(p) if as_json or not p else "".join("%s: %s\n" % (k, json.dumps(v)) for k, v in p.items())
             if rng.random() < 0.3:
                 # the parameter file is a symbolic link to a regular file kept elsewhere (shared parameter sets are commonly linked in)
                 fl["store/real%d.data" % i] = content_
